@@ -128,4 +128,250 @@ theorem metadata_operation_leaves_nothing_in_the_service (C : Crypto) (w0 w1 w2 
   simp [hne] at this
   omega
 
+/-! ### Remote deployment of an ESDT token: first transaction -/
+
+/-- reading a manager's recorded token (`tokenIdentifier` view, called without payment) leaves the whole world
+    as it was -/
+theorem subcall_tokenIdentifier (C : Crypto) (cx : ICtx) (tm : Bytes) (t t' : Tx) (rs : List Bytes)
+    (hk : t.w.kind tm = some .tokenManager)
+    (h : subcall C cx tm "tokenIdentifier" 0 [] [] t = some (rs, t')) :
+    t'.w = t.w ∧ t'.pend = t.pend ∧ rs = [(t.w.tms tm).tokenIdentifier] := by
+  unfold subcall at h
+  cases hp : World.pay t.w cx.self tm 0 [] with
+  | none => simp [hp] at h
+  | some w1 =>
+    have hw1 := pay_zero_eq _ _ _ _ hp
+    subst hw1
+    simp only [hp] at h
+    cases hc : World.callOther C t.w cx.self tm "tokenIdentifier" 0 [] [] with
+    | none => simp [hc] at h
+    | some r =>
+      obtain ⟨w2, rs2, evs, pd⟩ := r
+      simp only [hc, Option.some.injEq, Prod.mk.injEq] at h
+      obtain ⟨rfl, rfl⟩ := h
+      unfold World.callOther at hc
+      rw [hk] at hc
+      simp only at hc
+      have hcall : TokenManager.call (t.w.tms tm) (World.tmCtx t.w cx.self tm 0 []) "tokenIdentifier" [] =
+          .ok { st := t.w.tms tm, results := [(t.w.tms tm).tokenIdentifier] } := by
+        simp [TokenManager.call, TokenManager.notPayable, TokenManager.view, World.tmCtx]
+      rw [hcall] at hc
+      simp only [World.tmFinish, World.applyEffects] at hc
+      have hupd : upd t.w.tms tm (t.w.tms tm) = t.w.tms := by
+        funext a; simp only [upd]; split <;> simp_all
+      simp only [hupd, Option.some.injEq, Prod.mk.injEq] at hc
+      obtain ⟨rfl, rfl, _, rfl⟩ := hc
+      exact ⟨rfl, by simp, rfl⟩
+
+/-- **The synchronous part of a remote deployment of an ESDT token** (`deploy_remote_interchain_token_raw`, behind
+    all three remote-deployment endpoints): nothing moves and nothing is written; exactly one token lookup is
+    registered, remembering the attached EGLD as the gas value and `sender` as the one to refund. -/
+theorem deployRemoteRaw_esdt (C : Crypto) (cx : ICtx) (salt chain dm sender : Bytes) (t t' : Tx) (tid tm : Bytes)
+    (htm : t.w.its.tmAddress (tokenIdRaw C salt) = tm) (hk : t.w.kind tm = some .tokenManager)
+    (hesdt : GasService.tokOfBytes (t.w.tms tm).tokenIdentifier ≠ none)
+    (h : deployRemoteInterchainTokenRaw C cx salt chain dm sender t = some (tid, t')) :
+    t'.w = { t.w with
+      pending := t.w.pending ++
+        [⟨⟨t.w.nextPending, esdtSystemSc, "getTokenProperties", 0, [], [(t.w.tms tm).tokenIdentifier]⟩, cx.self,
+          .itsDeployRemote cx.self salt chain
+            ((t.w.tms tm).tokenIdentifier.take ((t.w.tms tm).tokenIdentifier.length - 7)) dm cx.egld sender, none⟩],
+      nextPending := t.w.nextPending + 1 } := by
+  simp only [deployRemoteInterchainTokenRaw, run_bind, requireNotPaused_run] at h
+  cases hpz : t.w.its.paused
+  · simp only [hpz, Bool.false_eq_true, if_false, registeredTokenIdentifier, run_bind, deployedTokenManager_run, htm] at h
+    by_cases hem : tm.isEmpty = true
+    · simp [hem] at h
+    · simp only [hem, Bool.false_eq_true, if_false] at h
+      cases hs : subcall C cx tm "tokenIdentifier" 0 [] [] t with
+      | none => simp [hs] at h
+      | some r =>
+        obtain ⟨rs, t1⟩ := r
+        obtain ⟨hw, hpd, hrs⟩ := subcall_tokenIdentifier C cx tm t t1 rs hk hs
+        subst hrs
+        simp only [hs, run_pure] at h
+        have hne : (GasService.tokOfBytes (t.w.tms tm).tokenIdentifier == none) = false := by
+          cases hx : GasService.tokOfBytes (t.w.tms tm).tokenIdentifier with
+          | none => exact absurd hx hesdt
+          | some v => rfl
+        simp only [hne, Bool.false_eq_true, if_false, run_bind, run_require] at h
+        by_cases hl : (t.w.tms tm).tokenIdentifier.length ≥ 7
+        · simp only [hl, decide_true, if_true, addPend_run, run_pure, Option.some.injEq, Prod.mk.injEq] at h
+          obtain ⟨_, rfl⟩ := h
+          simp only [hw]
+        · simp [hl] at h
+  · simp [hpz] at h
+
+theorem retUnlessAsync_run (m : M Bytes) (t : Tx) :
+    retUnlessAsync m t =
+      match m t with
+      | none => none
+      | some (b, t') => some (if t'.pend.length > t.pend.length then [] else [b], t') := by
+  have hg : ∀ t : Tx, (get : M Tx) t = some (t, t) := fun _ => rfl
+  simp only [retUnlessAsync, run_bind, hg]
+  cases m t with
+  | none => rfl
+  | some v =>
+    obtain ⟨b, t'⟩ := v
+    simp only [hg]
+    split <;> simp
+
+theorem call_deployRemoteCanonical (C : Crypto) (cx : ICtx) (tok chain : Bytes) :
+    ItsW.call C cx "deployRemoteCanonicalInterchainToken" [tok, chain] =
+      (do let st ← getI
+          if !onlyEgld cx then fail else do
+          require (GasService.tokOfBytes tok == none || isValidEsdt tok)
+          let deploySalt := canonicalDeploySalt C st tok
+          retUnlessAsync (deployRemoteInterchainTokenRaw C cx deploySalt chain [] cx.caller)) := rfl
+
+/-- **First transaction of a remote deployment of a canonical ESDT token**: the sender's EGLD goes to the
+    service, nothing else moves, and exactly one token lookup is registered which remembers that amount as the
+    gas value and the sender as the one to refund. -/
+theorem remote_canonical_first_transaction (C : Crypto) (w w' : World) (sender its tok chain : Bytes) (egld : Nat)
+    (esdt : List (Bytes × Nat × Nat)) (rs : List Bytes) (evs : List Event) (pd : List PendDesc) (tm : Bytes)
+    (hk : w.kind its = some .its)
+    (htm : w.its.tmAddress (tokenIdRaw C (canonicalDeploySalt C w.its tok)) = tm)
+    (hktm : w.kind tm = some .tokenManager)
+    (hesdt : GasService.tokOfBytes (w.tms tm).tokenIdentifier ≠ none)
+    (h : World.tx C w sender its "deployRemoteCanonicalInterchainToken" egld esdt [tok, chain] = (w', .ok rs evs pd)) :
+    esdt = [] ∧
+    World.Led w w' (World.pt sender none egld) (World.pt its none egld) ∧
+    w'.pending = w.pending ++
+      [⟨⟨w.nextPending, esdtSystemSc, "getTokenProperties", 0, [], [(w.tms tm).tokenIdentifier]⟩, its,
+        .itsDeployRemote its (canonicalDeploySalt C w.its tok) chain
+          ((w.tms tm).tokenIdentifier.take ((w.tms tm).tokenIdentifier.length - 7)) [] egld sender, none⟩] := by
+  unfold World.tx at h
+  cases hp : World.pay w sender its egld esdt with
+  | none => simp [hp] at h
+  | some w1 =>
+    simp only [hp, hk] at h
+    have hb := World.pay_bal _ _ _ _ _ _ hp
+    have hl0 := World.led_pay _ _ _ _ _ _ hp
+    cases hc : World.callContract C w1 sender its "deployRemoteCanonicalInterchainToken" egld esdt [tok, chain] with
+    | none => simp [hc] at h
+    | some r =>
+      obtain ⟨w2, rs2, evs2, pd2⟩ := r
+      simp only [hc, Prod.mk.injEq] at h
+      obtain ⟨rfl, _⟩ := h
+      unfold World.callContract at hc
+      rw [hb.kind, hk] at hc
+      simp only [World.runIts] at hc
+      cases hr : ItsW.call C (World.itsCtx w1 sender its egld esdt) "deployRemoteCanonicalInterchainToken" [tok, chain] { w := w1 } with
+      | none => simp [hr] at hc
+      | some v =>
+        obtain ⟨a, tt⟩ := v
+        simp only [hr, Option.some.injEq, Prod.mk.injEq] at hc
+        obtain ⟨rfl, _, _, _⟩ := hc
+        rw [call_deployRemoteCanonical] at hr
+        simp only [run_bind, run_getI] at hr
+        by_cases hoe : onlyEgld (World.itsCtx w1 sender its egld esdt) = true
+        · simp only [hoe, Bool.not_true, Bool.false_eq_true, if_false, run_bind, run_require] at hr
+          have he : esdt = [] := by simpa [onlyEgld, World.itsCtx] using hoe
+          subst he
+          split at hr
+          · cases hr
+          · rename_i u t1 hreq
+            have ht1 : t1 = { w := w1 } := by
+              split at hreq
+              · cases hreq; rfl
+              · cases hreq
+            subst ht1
+            rw [retUnlessAsync_run] at hr
+            have e1 : w1.its = w.its := by rw [hb]
+            have e2 : w1.tms = w.tms := by rw [hb]
+            have e3 : w1.kind = w.kind := by rw [hb]
+            have e4 : w1.pending = w.pending := by rw [hb]
+            have e5 : w1.nextPending = w.nextPending := by rw [hb]
+            cases hraw : deployRemoteInterchainTokenRaw C (World.itsCtx w1 sender its egld [])
+                (canonicalDeploySalt C w1.its tok) chain [] (World.itsCtx w1 sender its egld []).caller { w := w1 } with
+            | none => simp [hraw] at hr
+            | some q =>
+              obtain ⟨tid, t2⟩ := q
+              have hw2 := deployRemoteRaw_esdt C (World.itsCtx w1 sender its egld []) (canonicalDeploySalt C w1.its tok)
+                chain [] _ { w := w1 } t2 tid tm (by show w1.its.tmAddress _ = tm; rw [e1]; exact htm)
+                (by show w1.kind tm = _; rw [e3]; exact hktm)
+                (by show GasService.tokOfBytes (w1.tms tm).tokenIdentifier ≠ none; rw [e2]; exact hesdt) hraw
+              simp only [hraw, Option.some.injEq, Prod.mk.injEq] at hr
+              have htt : tt.w = t2.w := by rw [← hr.2]
+              refine ⟨rfl, ?_, ?_⟩
+              · rw [htt, hw2]
+                apply World.Led.conv (hl0.trans (World.Led.of_accts rfl))
+                intro x k
+                simp only [World.plus, World.nil, World.pt, World.payAmt]
+                cases k <;> simp
+              · rw [htt, hw2]
+                simp only [World.itsCtx, e1, e2, e4, e5]
+        · simp [hoe] at hr
+
+/-- **The callback of a remote-deployment lookup, at chain level**: whenever the callback transaction of a
+    delivered lookup succeeds — whatever the reply and whatever happened since the first transaction — exactly
+    the remembered gas value leaves the service, to the original caller or to the gas service; for every account
+    and asset nothing else moves. -/
+theorem remote_deploy_callback_at_chain_level (C : Crypto) (w w' : World) (id : Nat) (p : Pending)
+    (its salt chain sym dm : Bytes) (gas : Nat) (caller : Bytes) (okFlag : Bool) (vals rs : List Bytes)
+    (evs : List Event) (pd : List PendDesc)
+    (hp : World.findPending w.pending id = some p) (hk : p.kind = .itsDeployRemote its salt chain sym dm gas caller)
+    (hr : p.result = some (okFlag, vals))
+    (hkgs : w.kind w.its.gasService = some .gasService) (hkgw : w.kind w.its.gateway = some .gateway)
+    (hchain : chain ≠ [])
+    (h : World.callback C w id = (w', .ok rs evs pd)) :
+    ∃ target, (target = caller ∨ target = w.its.gasService) ∧
+      World.Led w w' (World.pt its none gas) (World.pt target none gas) := by
+  unfold World.callback at h
+  simp only [hp, hr, hk] at h
+  simp only [World.runIts] at h
+  cases hm : deployRemoteTokenCallback C
+      (World.itsCtx { w with pending := w.pending.filter (·.desc.id != id) } esdtSystemSc its 0 [])
+      salt chain sym dm gas caller okFlag vals { w := { w with pending := w.pending.filter (·.desc.id != id) } } with
+  | none => simp [hm] at h
+  | some v =>
+    obtain ⟨u, t'⟩ := v
+    cases u
+    simp only [hm, Prod.mk.injEq] at h
+    obtain ⟨rfl, _⟩ := h
+    obtain ⟨target, htg, hl⟩ := remote_deploy_callback_moves_exactly_the_gas_value C _ salt chain sym dm gas caller okFlag vals
+      { w := { w with pending := w.pending.filter (·.desc.id != id) } } t' hkgs hkgw hchain hm
+    refine ⟨target, by simpa using htg, ?_⟩
+    have h0 : World.Led w { w with pending := w.pending.filter (·.desc.id != id) } World.nil World.nil :=
+      World.Led.of_accts rfl
+    exact (h0.trans hl).conv (by intro x k; simp [World.plus, World.nil, World.itsCtx])
+
+/-- **The whole remote deployment of a canonical ESDT token.**  The first transaction puts exactly `egld` into the
+    service and registers the lookup; in any later world in which that lookup has been delivered (any reply, any
+    operations in between), a successful callback takes exactly `egld` out of the service again — to the sender or
+    to the gas service.  Over the whole operation the service holds none of the value the user attached. -/
+theorem remote_canonical_operation_leaves_nothing_in_the_service (C : Crypto) (w0 w1 w2 w3 : World)
+    (sender its tok chain tm : Bytes) (egld : Nat) (esdt : List (Bytes × Nat × Nat))
+    (rs rs' : List Bytes) (evs evs' : List Event) (pd pd' : List PendDesc)
+    (hk : w0.kind its = some .its) (hs : sender ≠ its)
+    (htm : w0.its.tmAddress (tokenIdRaw C (canonicalDeploySalt C w0.its tok)) = tm)
+    (hktm : w0.kind tm = some .tokenManager)
+    (hesdt : GasService.tokOfBytes (w0.tms tm).tokenIdentifier ≠ none)
+    (h1 : World.tx C w0 sender its "deployRemoteCanonicalInterchainToken" egld esdt [tok, chain] = (w1, .ok rs evs pd))
+    (p : Pending) (hp : World.findPending w2.pending w0.nextPending = some p)
+    (salt sym dm : Bytes) (hpk : p.kind = .itsDeployRemote its salt chain sym dm egld sender)
+    (okFlag : Bool) (vals : List Bytes) (hres : p.result = some (okFlag, vals))
+    (hkgs : w2.kind w2.its.gasService = some .gasService) (hkgw : w2.kind w2.its.gateway = some .gateway)
+    (hg : w2.its.gasService ≠ its) (hchain : chain ≠ [])
+    (h2 : World.callback C w2 w0.nextPending = (w3, .ok rs' evs' pd')) :
+    World.egld w1 its = World.egld w0 its + egld ∧ World.egld w3 its + egld = World.egld w2 its := by
+  obtain ⟨_, hl, _⟩ := remote_canonical_first_transaction C w0 w1 sender its tok chain egld esdt rs evs pd tm hk htm hktm hesdt h1
+  obtain ⟨target, htg, hl2⟩ := remote_deploy_callback_at_chain_level C w2 w3 _ p its salt chain sym dm egld sender
+    okFlag vals rs' evs' pd' hp hpk hres hkgs hkgw hchain h2
+  have hne : ¬ (its = sender) := fun e => hs e.symm
+  have htne : ¬ (its = target) := by
+    rcases htg with rfl | rfl
+    · exact hne
+    · exact fun e => hg e.symm
+  constructor
+  · have := hl its none
+    simp only [World.pt, World.balanceOf] at this
+    simp only [World.egld]
+    simp [hne] at this
+    omega
+  · have := hl2 its none
+    simp only [World.pt, World.balanceOf] at this
+    simp only [World.egld]
+    simp [htne] at this
+    omega
+
 end Axelar.Props.C17
